@@ -6,12 +6,13 @@ replayed history how many of its steps lie inside the fragment.
 import Mmmbbb.Model.Step
 namespace Mmmbbb
 
-/-- the fragment: clock advances, topic creation and deletion, subscription creation (no dead-letter
-    policy), deletion and expiry, snapshot creation and deletion, publishes
-    (single and batched, the clock ticking between messages), pulls (waiting or not), deadline changes
-    (positive, zero — the nack of a client library — and negative), nacks, acknowledgements of deliveries that
-    have been handed out (the only ack ids a client can hold), and the two jobs that delete
-    acknowledged / expired delivery rows -/
+/-- the fragment: every operation of the store except the two seeks and the creation of a
+    subscription with a dead-letter policy — clock advances, topic creation and deletion,
+    subscription creation (no dead-letter policy), deletion and expiry, snapshot creation and
+    deletion, publishes (single and batched, the clock ticking between messages), pulls (waiting or
+    not), deadline changes (positive, zero — the nack of a client library — and negative), nacks,
+    acknowledgements of deliveries that have been handed out (the only ack ids a client can hold),
+    the delay injector, the dead-letter sweep (it finds no candidate here) and all six prune jobs -/
 def fragOk (st : St) : Op → Prop
   | .advance d => 0 ≤ d
   | .createTopic _ _ _ => True
@@ -28,6 +29,12 @@ def fragOk (st : St) : Op → Prop
   | .nack _ _ _ => True
   | .pruneCompletedDeliveries _ _ _ => True
   | .pruneExpiredDeliveries _ _ => True
+  | .setDelay _ _ => True
+  | .dlSweep _ _ _ => True
+  | .pruneCompletedMessages _ _ _ => True
+  | .pruneDeletedSubDeliveries _ _ _ => True
+  | .pruneDeletedSubs _ _ _ => True
+  | .pruneDeletedTopics _ _ _ => True
   | _ => False
 
 instance (st : St) (op : Op) : Decidable (fragOk st op) := by
